@@ -9,7 +9,7 @@ use crate::model::{MV, json};
 use proptest::prelude::*;
 use serde::{Deserialize, Serialize};
 
-pub const RULE: &str = "generated scripts of 1-10 statements (bindings, `output name`, `output name = expr`, expression statements, comments; 0-6 output declarations incl. repeated names; values computable by the harness: literals, #k, inputs.k, references, arithmetic, lists and records of these) with an optional failing statement at any position (unknown identifier, type error, call of a non-function, rebinding, output of an unbound name, parse error) x input sets (optional piped stdin and 0-4 --input flags; objects and non-objects; overlapping keys; occasionally invalid JSON) x invocation modes (file path, inline source, -e with the source on stdin, each with or without -o FILE), run in the real release binary and compared with a reference model of merging, bind-once evaluation, outputs and exit status. Non-trivial = at least one output declaration together with overlapping input keys or a failing statement; distinct by (script, inputs, mode).";
+pub const RULE: &str = "generated scripts of 1-10 statements (bindings, `output name`, `output name = expr`, expression statements, comments; 0-6 output declarations incl. repeated names; values computable by the harness: literals, #k, inputs.k, references, arithmetic, lists and records of these) with an optional failing statement at any position (unknown identifier, type error, call of a non-function, rebinding, output of an unbound name, parse error) x input sets (optional piped stdin and 0-4 --input flags; objects and non-objects; overlapping keys; occasionally invalid JSON or invalid UTF-8, also on stdin) x invocation modes (file path, inline source, -e with the source on stdin, each with or without -o FILE), run in the real release binary and compared with a reference model of merging, bind-once evaluation, outputs and exit status. Non-trivial = at least one output declaration together with overlapping input keys or a failing statement; distinct by (script, inputs, mode).";
 pub const ASSUMPTIONS: &[&str] = &[
     "only finite numbers are used (JSON cannot carry infinities)",
     "the failing statement kinds are those the model can predict; a parse error anywhere fails the whole script before any statement runs",
@@ -50,6 +50,9 @@ pub struct Input {
     /// JSON text (the harness writer), possibly invalid on purpose
     pub text: String,
     pub valid: Option<MV>,
+    /// piped with a byte in front that makes the document invalid UTF-8 (and so invalid JSON)
+    #[serde(default)]
+    pub bad_utf8: bool,
 }
 
 #[derive(Clone, Debug, Serialize, Deserialize)]
@@ -244,18 +247,18 @@ impl Check for Cli {
             args.push("-o".into());
             args.push(out_path.clone());
         }
-        let stdin_json: Option<String> = c.inputs.iter().find(|i| i.stdin).map(|i| i.text.clone());
+        let stdin_json: Option<Vec<u8>> = c.inputs.iter().find(|i| i.stdin).map(|i| if i.bad_utf8 { [&[0xffu8][..], i.text.as_bytes()].concat() } else { i.text.clone().into_bytes() });
         let stdin_data: Option<Vec<u8>>;
         match c.mode % 3 {
             0 => {
                 let p = format!("{}/script.blots", dir);
                 std::fs::write(&p, &script).unwrap();
                 args.push(p);
-                stdin_data = stdin_json.map(|s| s.into_bytes());
+                stdin_data = stdin_json;
             }
             1 => {
                 args.push(script.clone());
-                stdin_data = stdin_json.map(|s| s.into_bytes());
+                stdin_data = stdin_json;
             }
             _ => {
                 args.push("-e".into());
@@ -414,15 +417,19 @@ fn case(tape: &[u16]) -> Case {
     let mut inputs = Vec::new();
     if mode != 2 && t.chance(1, 2) {
         let v = input_value(&mut t);
-        inputs.push(Input { stdin: true, text: json::write(&v, t.pick(2) as u8), valid: Some(v) });
+        match t.pick(40) {
+            0 => inputs.push(Input { stdin: true, text: ["{\"a\": ", "nope", "{'a': 1}", "{\"a\": 1} x"][t.pick(4)].into(), valid: None, bad_utf8: false }),
+            1 => inputs.push(Input { stdin: true, text: json::write(&v, 0), valid: None, bad_utf8: true }),
+            _ => inputs.push(Input { stdin: true, text: json::write(&v, t.pick(2) as u8), valid: Some(v), bad_utf8: false }),
+        }
     }
     let k = t.pick(5);
     for _ in 0..k {
         if t.chance(1, 25) {
-            inputs.push(Input { stdin: false, text: ["{\"a\": ", "nope", "{'a': 1}", ""][t.pick(4)].into(), valid: None });
+            inputs.push(Input { stdin: false, text: ["{\"a\": ", "nope", "{'a': 1}", ""][t.pick(4)].into(), valid: None, bad_utf8: false });
         } else {
             let v = input_value(&mut t);
-            inputs.push(Input { stdin: false, text: json::write(&v, t.pick(2) as u8), valid: Some(v) });
+            inputs.push(Input { stdin: false, text: json::write(&v, t.pick(2) as u8), valid: Some(v), bad_utf8: false });
         }
     }
     // a later source that sets a key of an earlier one to null (null overrides like any value)
@@ -438,7 +445,7 @@ fn case(tape: &[u16]) -> Case {
         if !earlier.is_empty() {
             let key = earlier[t.pick(earlier.len())].clone();
             let v = MV::Rec(vec![(key, MV::Null), ("zz".into(), num(1.0))]);
-            inputs.push(Input { stdin: false, text: json::write(&v, t.pick(2) as u8), valid: Some(v) });
+            inputs.push(Input { stdin: false, text: json::write(&v, t.pick(2) as u8), valid: Some(v), bad_utf8: false });
         }
     }
     // an empty --input text is ignored? no: it is a JSON error; keep it as invalid
@@ -482,7 +489,7 @@ fn case(tape: &[u16]) -> Case {
 pub fn run(ctx: &mut Ctx) {
     // fixed documented scenarios
     let obj = |pairs: Vec<(&str, MV)>| MV::Rec(pairs.into_iter().map(|(k, v)| (k.to_string(), v)).collect());
-    let inp = |stdin: bool, v: MV| Input { stdin, text: json::write(&v, 0), valid: Some(v) };
+    let inp = |stdin: bool, v: MV| Input { stdin, text: json::write(&v, 0), valid: Some(v), bad_utf8: false };
     let fixed = vec![
         Case { stmts: vec![Stmt::OutputBind("p".into(), Val::Add(Box::new(Val::Hash("a".into())), Box::new(Val::InputsDot("b".into()))))], inputs: vec![inp(true, obj(vec![("a", num(1.0)), ("b", num(2.0))])), inp(false, obj(vec![("b", num(10.0))])), inp(false, obj(vec![("a", num(5.0))]))], mode: 0, out_file: false, precreate: false },
         Case { stmts: vec![Stmt::OutputBind("p".into(), Val::List(vec![Val::Hash("value_1".into()), Val::Hash("value_2".into()), Val::Hash("value_3".into())]))], inputs: vec![inp(true, num(3.0)), inp(false, MV::Str("x".into())), inp(false, obj(vec![("value_total", num(1.0))])), inp(false, MV::Null)], mode: 1, out_file: false, precreate: false },
